@@ -37,6 +37,13 @@ def make_cases(tier, seed):
                 cases.append({"id": "%s-%s" % (bid, op), "mode": "planted", "spec": spec, "plan": [], "stop_after_pavexc": True,
                               "shape": gen.shape_signature(spec) + "-" + op, "role": "planted", "twin": bid, "operator": op})
             k += tried
+        # hand-written sentinels: rule-breaking blueprints that must be rejected (no twin needed)
+        import glob, os
+        for p in sorted(glob.glob(os.path.join(vlib.VERIF, "e2e", "regress", "*.json"))):
+            r = json.load(open(p))
+            if r.get("expect_rejected"):
+                cases.append({"id": "rg-" + r["name"], "mode": "planted", "spec": r["spec"], "plan": [], "stop_after_pavexc": True,
+                              "shape": "rg-" + r["name"], "role": "planted", "twin": None, "operator": r["spec"]["planted"]["operator"]})
         return cases
     return f
 
@@ -52,7 +59,7 @@ def run(ctx):
         if c["role"] != "planted":
             continue
         r = results.get(c["id"])
-        tw = results.get(c["twin"])
+        tw = results.get(c["twin"]) if c["twin"] else {"stages": {"app_build": {"ok": True}, "pavexc": {"rc": 0}}}
         op = c["operator"]
         st = per_op.setdefault(op, {"rejected": 0, "accepted": 0, "twin_not_accepted": 0, "generator_bug": 0, "panicked": 0})
         if r is None or tw is None or not r["stages"].get("app_build", {}).get("ok") or not tw["stages"].get("app_build", {}).get("ok"):
